@@ -722,6 +722,32 @@ pub fn search_conv(out: &mut Vec<Finding>) {
             }
             v
         });
+        // failed owned conversions return the original value unchanged
+        let (s3, t3) = (s.clone(), t.clone());
+        let back = guarded(move || {
+            let ir = iri::IriRef::new(&t3).unwrap();
+            let mut v: Vec<(&'static str, Option<Vec<u8>>)> = vec![];
+            v.push(("IriRefBuf::try_into_iri (error value)", ir.to_owned().try_into_iri().err().map(|e| e.0.into_bytes())));
+            v.push(("IriRefBuf::try_into_uri (error value)", ir.to_owned().try_into_uri().err().map(|e| e.0.into_bytes())));
+            v.push(("IriRefBuf::try_into_uri_ref (error value)", ir.to_owned().try_into_uri_ref().err().map(|e| e.0.into_bytes())));
+            if let Some(i) = ir.as_iri() {
+                v.push(("IriBuf::try_into_uri (error value)", i.to_owned().try_into_uri().err().map(|e| e.0.into_bytes())));
+            }
+            if let Ok(ur) = uri::UriRef::new(&s3) {
+                v.push(("UriRefBuf::try_into_uri (error value)", ur.to_owned().try_into_uri().err().map(|e| e.0.into_bytes())));
+            }
+            v
+        });
+        if let Some(v) = back {
+            for (what, got) in v {
+                if let Some(g) = got {
+                    if g != s {
+                        out.push(Finding { what: format!("{}: a failed conversion does not return the original value", what), inputs: vec![s.clone()], real: format!("{:?}", lossy(&g)), expected: format!("{:?}", lossy(&s)) });
+                        return;
+                    }
+                }
+            }
+        }
         match r {
             None => {
                 out.push(Finding { what: "a conversion between the four kinds panics".into(), inputs: vec![s.clone()], real: "panic".into(), expected: "no panic".into() });
@@ -1198,6 +1224,48 @@ pub fn search_routes(out: &mut Vec<Finding>) {
     }
 }
 
+
+/// C19: the percent-encoded views of components (text, decoded octets, length); inputs whose decoded octets are not
+/// UTF-8 are skipped (recorded finding: those panic)
+pub fn search_pct(out: &mut Vec<Finding>) {
+    for s in strings(b"a%41?/", 4) {
+        let dec = match pct(&s) {
+            Some(d) => d,
+            None => continue,
+        };
+        let s2 = s.clone();
+        let r = guarded(move || {
+            let mut v: Vec<(&'static str, String, String, usize)> = vec![];
+            let t = std::str::from_utf8(&s2).unwrap().to_string();
+            if let Ok(x) = uri::Query::new(&s2) { let p = x.as_pct_str(); v.push(("uri::Query", p.as_str().to_string(), p.decode(), p.len())); }
+            if let Ok(x) = uri::Fragment::new(&s2) { let p = x.as_pct_str(); v.push(("uri::Fragment", p.as_str().to_string(), p.decode(), p.len())); }
+            if let Ok(x) = uri::Segment::new(&s2) { let p = x.as_pct_str(); v.push(("uri::Segment", p.as_str().to_string(), p.decode(), p.len())); }
+            if let Ok(x) = uri::Host::new(&s2) { let p = x.as_pct_str(); v.push(("uri::Host", p.as_str().to_string(), p.decode(), p.len())); }
+            if let Ok(x) = uri::UserInfo::new(&s2) { let p = x.as_pct_str(); v.push(("uri::UserInfo", p.as_str().to_string(), p.decode(), p.len())); }
+            if let Ok(x) = iri::Query::new(&t) { let p = x.as_pct_str(); v.push(("iri::Query", p.as_str().to_string(), p.decode(), p.len())); }
+            if let Ok(x) = iri::Fragment::new(&t) { let p = x.as_pct_str(); v.push(("iri::Fragment", p.as_str().to_string(), p.decode(), p.len())); }
+            if let Ok(x) = iri::Segment::new(&t) { let p = x.as_pct_str(); v.push(("iri::Segment", p.as_str().to_string(), p.decode(), p.len())); }
+            if let Ok(x) = iri::Host::new(&t) { let p = x.as_pct_str(); v.push(("iri::Host", p.as_str().to_string(), p.decode(), p.len())); }
+            if let Ok(x) = iri::UserInfo::new(&t) { let p = x.as_pct_str(); v.push(("iri::UserInfo", p.as_str().to_string(), p.decode(), p.len())); }
+            v
+        });
+        match r {
+            None => {
+                out.push(Finding { what: "a percent-encoded view panics on a component whose decoded octets are UTF-8".into(), inputs: vec![s.clone()], real: "panic".into(), expected: "no panic".into() });
+                return;
+            }
+            Some(v) => {
+                for (what, text, d, len) in v {
+                    if text.as_bytes() != &s[..] || d != dec || len != dec.chars().count() {
+                        out.push(Finding { what: format!("{}::as_pct_str: the view is not the component's text / its percent-decoding", what), inputs: vec![s.clone()], real: format!("text {:?} decoded {:?} len {}", text, d, len), expected: format!("text {:?} decoded {:?} len {}", lossy(&s), dec, dec.chars().count()) });
+                        return;
+                    }
+                }
+            }
+        }
+    }
+}
+
 pub fn search(prop: &str) -> Vec<Finding> {
     let mut out = vec![];
     match prop {
@@ -1223,6 +1291,7 @@ pub fn search(prop: &str) -> Vec<Finding> {
         "C10" => search_pathops(&mut out, false),
         "C11" => search_authmut(&mut out),
         "C06" => search_resolve(&mut out),
+        "C19" => search_pct(&mut out),
         "C01" => search_routes(&mut out),
         "C15" => search_relative(&mut out, false),
         "C15all" => search_relative(&mut out, true),
